@@ -411,6 +411,7 @@ ADDENDA = {
 TRANSLATED = {"C01": "loop bounds", "C03": "the grid-test condition", "C05": "next_cmc", "C06": "half_chunk / chunk_fetch_factor",
               "C08": "the per-level factor, size and chunk-exponent arithmetic",
               "C09": "the uint64 masks and shard / minishard numbers", "C13": "the chunk boxes of the conversion loop",
+              "C15": "the slice-group windows (in order and reversed)",
               "C20": "ceil_div and the per-axis chunk count"}
 LINKAGE_NOTE = (" Linkage audit on every run: every model definition a property theorem is stated over is reachable "
                 "from the compiled driver's main (so the correspondence run executes it next to the code) or is listed "
